@@ -81,7 +81,7 @@ func switchArms(fd *ast.FuncDecl) map[string]string {
 			return true
 		}
 		// names the arm declares itself are positional; names from the enclosing function stay as written
-		o := &canonOpts{Rename: canonLocals(nil, cc)}
+		o := canonOptsFor(nil, cc)
 		var labs []string
 		for _, e := range cc.List {
 			labs = append(labs, canonAST(e, o))
